@@ -1,32 +1,37 @@
 """translator items for C13 (PSD normalisation, frequency axes, band-limited RMS, synthetic-surface RMS).
 
-Reads prysm/interferogram.py (psd, bandlimited_rms, render_synthetic_surface, Interferogram.psd /
-bandlimited_rms), prysm/util.py (rms), prysm/coordinates.py (broadcast_1d_to_2d) of the CURRENT tree and
-emits the glue where the defects live:
+Reads prysm/interferogram.py (psd, make_window signature, bandlimited_rms, render_synthetic_surface, Interferogram.psd /
+bandlimited_rms / total_integrated_scatter / render_from_psd), prysm/fttools.py (forward_ft_unit), prysm/util.py (rms),
+prysm/coordinates.py (broadcast_1d_to_2d, cart_to_polar), prysm/_richdata.py (RichData.r) of the CURRENT tree and emits the
+glue where the defects live:
 
-  psdPreRot / psdPostRot      rotation kinds around fft2 in `psd`
-  psdCoef                     `coef = S2*fs*fs`, `fs = 1/dx` as a generic-scalar function
-  psdUxShapeAxis/UyShapeAxis  which `height.shape[k]` feeds which returned frequency axis
-  brmsCentre                  the reference index `s//2`
-  brmsIntegrations, brmsIntAxis, brmsStepAxis, brmsStepLag
+  psd(): by LAST-DEFINITION DATAFLOW (`_SSA`: the function body is executed symbolically by substitution, so rebinding
+  `psd = psd * 2`, `/=`, reordering of independent statements and renaming of locals are all followed):
+    psdPreRot / psdPostRot      rotation kinds around fft2 in what is RETURNED
+    psdPower                    the returned power as a function of P = |spectrum|^2, S2 = sum(window^2), dx
+    psdWindowSameInTransformAndS2, psdWindowMadeForHeightFromWindowArgument, psdPowerIsSquaredModulus   (three-valued facts)
+    psdUxShapeAxis/UyShapeAxis, psdUx/UyBroadcastSlot   which `height.shape[k]` / which broadcast output feeds which returned axis
+  axisRot, axisFftfreqCountThenSpacing   fttools.forward_ft_unit = rot(fftfreq(samples, dx))
+  brmsCentre, brmsIntegrations, brmsIntAxis, brmsStepAxis, brmsStepLag
                               for each integration call of the 2-D path of `bandlimited_rms`: the axis= it
-                              reduces, and along which array axis (and over how many samples) the step
-                              `dx=` handed to it was measured
+                              reduces, and along which array axis (and at which lag from the centre) the step was measured
+  brmsCentre1D, brmsStepLag1D the same for the 1-D branch (`r.ndim != 2`)
   brmsLowCmp / brmsHighCmp    comparison kinds of the band mask
   brmsIntegratorPortable      the integrator is looked up as `trapezoid`, falling back to `trapz`
-  brmsBand*                   the band (flow, fhigh) that each way of calling bandlimited_rms ends up with
-                              (periods / frequencies, one-sided / two-sided), by symbolic execution of the
-                              argument handling
-  synthScale / synthRescale   `scale_factor = rms / z_rms`, `z *= scale_factor`
+  brmsReturnsSqrtOfIntegralOfACopy
+  brmsBand*                   the band (flow, fhigh) that each way of calling bandlimited_rms ends up with (periods /
+                              frequencies, one-sided / two-sided / one edge of each kind), by symbolic execution of the
+                              argument handling; brmsNoBandGivenRaisesValueError for the empty call
+  synthRescale                the rescale of the surface as a function of (rho, measured rms, z), local names followed
   ifgPsdDx                    the `dx` that Interferogram.psd() stores on the spectrum
-  + structural facts
+  + structural facts (THREE-VALUED: True = recognised and right, False = recognised and wrong, None = shape not recognised;
+    arguments of calls are bound by name or position, locals may be renamed, np.abs = abs, ...)
 
-Every item works on the pinned and on the repaired source shapes and degrades to `untranslatable`
-(fallback = the hand model) on shapes it does not know.
+Every item degrades to `untranslatable` (fallback = the hand model; reported as TIE-DEGRADED) on shapes it does not know.
 """
 import ast
 from pyexpr2lean import (Gen, Tr, Untranslatable, load, get_def, find_assign, find_assigns, find_returns,
-                         find_calls)
+                         find_calls, lean_int)
 
 M = 'Model.C13'
 ROTS = {'fftshift': f'{M}.Rot.fftshift', 'ifftshift': f'{M}.Rot.ifftshift'}
@@ -46,6 +51,253 @@ def _stmts(fn):
     out = [n for n in ast.walk(fn) if isinstance(n, ast.stmt) and n is not fn]
     out.sort(key=lambda n: (n.lineno, n.col_offset))
     return out
+
+
+# --------------------------------------------------------------------------------------------------
+# straight-line symbolic execution (last-definition dataflow): name -> expression over the parameters
+# --------------------------------------------------------------------------------------------------
+class _SSA:
+    """runs a straight-line function body by SUBSTITUTION: after `run`, `env[name]` is the value of `name` at the point
+    the function returns, written over the parameters only (every local is replaced by the expression bound to it at
+    that point), and `ret` is the returned expression.  Rebinding (`psd = psd * 2`), augmented assignment, tuple
+    unpacking of a call (`a, b = f(..)` -> `f(..)[0]`, `f(..)[1]`) and reordering of independent statements are all
+    followed; renaming a local changes nothing.  `consts` fixes the truth value of `if <param>:` tests.
+    Anything else (loops, attribute / subscript stores, calls for effect, aliasing followed by an in-place update)
+    raises Untranslatable."""
+
+    def __init__(self, consts=None):
+        self.env = {}
+        self.ret = None
+        self.consts = dict(consts or {})
+        self.alias = {}           # name -> name it was bound to by a bare `a = b`
+
+    def subst(self, e):
+        import copy
+        env = self.env
+
+        class S(ast.NodeTransformer):
+            def visit_Name(self, n):
+                if isinstance(n.ctx, ast.Load) and n.id in env:
+                    return copy.deepcopy(env[n.id])
+                return n
+        return S().visit(copy.deepcopy(e))
+
+    def _truth(self, t):
+        if isinstance(t, ast.Name) and t.id in self.consts:
+            return bool(self.consts[t.id])
+        if isinstance(t, ast.UnaryOp) and isinstance(t.op, ast.Not):
+            return not self._truth(t.operand)
+        raise Untranslatable(f'branch on {ast.unparse(t)[:40]}')
+
+    def run(self, stmts):
+        for st in stmts:
+            if self.ret is not None:
+                return
+            if isinstance(st, ast.Expr) and isinstance(st.value, ast.Constant):
+                continue
+            if isinstance(st, ast.Pass):
+                continue
+            if isinstance(st, ast.Delete) and all(isinstance(t, ast.Name) for t in st.targets):
+                for t in st.targets:          # values already substituted into later uses stay what they were
+                    self.env.pop(t.id, None)
+                    self.alias.pop(t.id, None)
+                continue
+            if isinstance(st, ast.If):
+                self.run(st.body if self._truth(st.test) else st.orelse)
+                continue
+            if isinstance(st, ast.Return):
+                if st.value is None:
+                    raise Untranslatable('bare return')
+                self.ret = self.subst(st.value)
+                return
+            if isinstance(st, ast.AugAssign) and isinstance(st.target, ast.Name):
+                nm = st.target.id
+                if nm in self.alias or nm in self.alias.values():
+                    raise Untranslatable(f'in-place update of {nm}, which has an alias')
+                cur = self.env.get(nm, ast.Name(id=nm, ctx=ast.Load()))
+                self.env[nm] = ast.BinOp(left=cur, op=st.op, right=self.subst(st.value))
+                continue
+            if isinstance(st, ast.Assign) and len(st.targets) == 1:
+                t = st.targets[0]
+                if isinstance(t, ast.Name):
+                    if isinstance(st.value, ast.Name):
+                        self.alias[t.id] = st.value.id
+                    else:
+                        self.alias.pop(t.id, None)
+                    self.env[t.id] = self.subst(st.value)
+                    continue
+                if isinstance(t, ast.Tuple) and all(isinstance(x, ast.Name) for x in t.elts):
+                    v = self.subst(st.value)
+                    if isinstance(v, ast.Tuple) and len(v.elts) == len(t.elts):
+                        vals = list(v.elts)
+                    else:
+                        vals = [ast.Subscript(value=v, slice=ast.Constant(value=k), ctx=ast.Load()) for k in range(len(t.elts))]
+                    for x, val in zip(t.elts, vals):
+                        self.env[x.id] = val
+                    continue
+            raise Untranslatable(f'statement {ast.unparse(st)[:60]}')
+
+
+def _norm(e):
+    """source text of an expression with spelling noise removed: no blanks, `np.abs` / `numpy.abs` / `np.absolute` -> `abs`"""
+    t = ast.unparse(e).replace(' ', '')
+    for a in ('numpy.', 'np.'):
+        t = t.replace(a + 'absolute', 'abs').replace(a + 'abs', 'abs')
+    return t
+
+
+def _bind(call, params):
+    """positional-or-keyword binding of a Call to a parameter list -> {param: expr}; Untranslatable on * / ** / too many"""
+    out = {}
+    if len(call.args) > len(params) or any(isinstance(a, ast.Starred) for a in call.args):
+        raise Untranslatable(f'call {ast.unparse(call)[:50]}')
+    for p_, a in zip(params, call.args):
+        out[p_] = a
+    for k in call.keywords:
+        if k.arg is None:
+            continue                      # **kwargs pass-through
+        if k.arg in out:
+            raise Untranslatable('argument given twice')
+        out[k.arg] = k.value
+    return out
+
+
+def _params(fn):
+    return [a.arg for a in fn.args.args]
+
+
+def _callee(e):
+    return ast.unparse(e.func).split('.')[-1] if isinstance(e, ast.Call) else None
+
+
+def _power_of(e):
+    """`abs(X)**2`, `abs(X)*abs(X)`, `X.real**2 + X.imag**2`, `(X*conj(X)).real` -> X; else None"""
+    if isinstance(e, ast.BinOp) and isinstance(e.op, ast.Pow) and isinstance(e.right, ast.Constant) and e.right.value == 2 \
+            and isinstance(e.left, ast.Call) and _norm(e.left.func) in ('abs',) and len(e.left.args) == 1:
+        return e.left.args[0]
+    if isinstance(e, ast.BinOp) and isinstance(e.op, ast.Mult) and _norm(e.left) == _norm(e.right) \
+            and isinstance(e.left, ast.Call) and _norm(e.left.func) == 'abs' and len(e.left.args) == 1:
+        return e.left.args[0]
+    if isinstance(e, ast.BinOp) and isinstance(e.op, ast.Add):
+        def part(x, attr):
+            if isinstance(x, ast.BinOp) and isinstance(x.op, ast.Pow) and isinstance(x.right, ast.Constant) and x.right.value == 2 \
+                    and isinstance(x.left, ast.Attribute) and x.left.attr == attr:
+                return x.left.value
+            return None
+        for (a, b) in (('real', 'imag'), ('imag', 'real')):
+            u, v = part(e.left, a), part(e.right, b)
+            if u is not None and v is not None and _norm(u) == _norm(v):
+                return u
+    return None
+
+
+def _sumsq_of(e):
+    """`(W**2).sum()`, `(W*W).sum()`, `np.sum(W**2)`, `np.sum(W*W)` -> W; else None"""
+    inner = None
+    if isinstance(e, ast.Call) and isinstance(e.func, ast.Attribute) and e.func.attr == 'sum' and not e.args and not e.keywords:
+        inner = e.func.value
+    if isinstance(e, ast.Call) and ast.unparse(e.func) in ('np.sum', 'numpy.sum', 'sum') and len(e.args) == 1 and not e.keywords:
+        inner = e.args[0]
+    if inner is None:
+        return None
+    if isinstance(inner, ast.BinOp) and isinstance(inner.op, ast.Pow) and isinstance(inner.right, ast.Constant) and inner.right.value == 2:
+        return inner.left
+    if isinstance(inner, ast.BinOp) and isinstance(inner.op, ast.Mult) and _norm(inner.left) == _norm(inner.right):
+        return inner.left
+    return None
+
+
+def _replace(e, pred, make):
+    """copy of `e` in which every maximal sub-expression with pred(sub) is not None is replaced by make(sub, pred(sub))"""
+    import copy
+
+    class R(ast.NodeTransformer):
+        def generic_visit(self, node):
+            return super().generic_visit(node)
+
+        def visit(self, node):
+            if isinstance(node, ast.expr):
+                hit = pred(node)
+                if hit is not None:
+                    return make(node, hit)
+            return super().visit(node)
+    return R().visit(copy.deepcopy(e))
+
+
+_PSD_CACHE = {}
+
+
+def _psd_analysis(fn):
+    """last-definition dataflow of `psd(height, dx, window)`: what the function RETURNS, written over its parameters.
+    -> dict(pre, post, power_term_expr, W_transform, W_s2, ux, uy)"""
+    key = ast.dump(fn)
+    if key in _PSD_CACHE:
+        r = _PSD_CACHE[key]
+        if isinstance(r, Exception):
+            raise r
+        return r
+    try:
+        r = _psd_analysis_(fn)
+    except Untranslatable as ex:
+        _PSD_CACHE[key] = ex
+        raise
+    _PSD_CACHE[key] = r
+    return r
+
+
+def _psd_analysis_(fn):
+    ssa = _SSA()
+    ssa.run(fn.body)
+    if not (isinstance(ssa.ret, ast.Tuple) and len(ssa.ret.elts) == 3):
+        raise Untranslatable('psd does not return a 3-tuple')
+    ux, uy, pw = ssa.ret.elts
+    spectra, windows = [], []
+
+    def mk_p(node, X):
+        spectra.append(X)
+        return ast.Name(id='P__', ctx=ast.Load())
+
+    def mk_s(node, W):
+        windows.append(W)
+        return ast.Name(id='S2__', ctx=ast.Load())
+    pw2 = _replace(pw, _power_of, mk_p)
+    pw2 = _replace(pw2, _sumsq_of, mk_s)
+    if not spectra:
+        raise Untranslatable(f'no |spectrum|^2 in the returned power: {ast.unparse(pw)[:70]}')
+    if len({_norm(x) for x in spectra}) != 1:
+        raise Untranslatable('two different spectra in the returned power')
+    if len({_norm(x) for x in windows}) > 1:
+        raise Untranslatable('two different sum-of-squares in the returned power')
+    X = spectra[0]
+    post, inner = _rot_call(X)
+    if not (isinstance(inner, ast.Call) and _callee(inner) == 'fft2' and len(inner.args) == 1 and not inner.keywords):
+        raise Untranslatable(f'spectrum is not rot(fft2(..)): {ast.unparse(X)[:60]}')
+    pre, D = _rot_call(inner.args[0])
+    if not (isinstance(D, ast.BinOp) and isinstance(D.op, ast.Mult)):
+        raise Untranslatable(f'transform input is {ast.unparse(D)[:40]}')
+    if _norm(D.left) == 'height':
+        Wt = D.right
+    elif _norm(D.right) == 'height':
+        Wt = D.left
+    else:
+        raise Untranslatable(f'transform input is {ast.unparse(D)[:40]}')
+    return {'pre': pre, 'post': post, 'power': pw2, 'Wt': Wt, 'Ws': windows[0] if windows else None, 'ux': ux, 'uy': uy}
+
+
+def _axis_call(e):
+    """`forward_ft_unit(dx, height.shape[k])` (positional / keyword, shift=True allowed) -> k ; else Untranslatable"""
+    if not (isinstance(e, ast.Call) and _callee(e) == 'forward_ft_unit'):
+        raise Untranslatable(f'axis is {ast.unparse(e)[:50]}')
+    b = _bind(e, ['dx', 'samples', 'shift'])
+    if 'shift' in b and not (isinstance(b['shift'], ast.Constant) and b['shift'].value is True):
+        raise Untranslatable('forward_ft_unit called with shift != True')
+    if 'dx' not in b or 'samples' not in b or _norm(b['dx']) != 'dx':
+        raise Untranslatable(f'axis is {ast.unparse(e)[:50]}')
+    a = b['samples']
+    if not (isinstance(a, ast.Subscript) and _norm(a.value) in ('height.shape', 'np.shape(height)') and isinstance(a.slice, ast.Constant)
+            and a.slice.value in (0, 1, -1, -2)):
+        raise Untranslatable(f'axis length is {ast.unparse(a)[:40]}')
+    return a.slice.value % 2
 
 
 # --------------------------------------------------------------------------------------------------
@@ -244,6 +496,77 @@ def _integrator_portable(fn):
     return all(verdicts)
 
 
+class _Raises(Exception):
+    """the symbolic execution of the argument handling reached a `raise`"""
+
+
+def _brms_1d(fn):
+    """the `r.ndim != 2` branch: -> (centre expression node, lag of the step's second point relative to the centre)"""
+    branch = None
+    for st in fn.body:
+        if isinstance(st, ast.If) and _is_ndim2(st.test) and st.orelse:
+            branch = st.orelse
+            break
+    if branch is None:
+        raise Untranslatable('no else-branch of `if r.ndim == 2` (1-D form)')
+    centre = None
+    cname = None
+    off = {}
+    for st in branch:
+        if isinstance(st, ast.Expr) and isinstance(st.value, ast.Constant):
+            continue
+        if not (isinstance(st, ast.Assign) and len(st.targets) == 1 and isinstance(st.targets[0], ast.Name)):
+            raise Untranslatable(f'statement in the 1-D branch: {ast.unparse(st)[:50]}')
+        nm, v = st.targets[0].id, st.value
+        if isinstance(v, ast.Subscript) and ast.unparse(v.value) == 'r':
+            ix = v.slice
+            if isinstance(ix, ast.Name) and ix.id == cname:
+                off[nm] = 0
+            elif isinstance(ix, ast.BinOp) and isinstance(ix.op, (ast.Add, ast.Sub)) and isinstance(ix.left, ast.Name) \
+                    and ix.left.id == cname and isinstance(ix.right, ast.Constant) and isinstance(ix.right.value, int):
+                off[nm] = ix.right.value if isinstance(ix.op, ast.Add) else -ix.right.value
+            else:
+                raise Untranslatable(f'1-D point {ast.unparse(v)[:40]}')
+            continue
+        if centre is None:
+            centre, cname = v, nm
+            continue
+        raise Untranslatable(f'statement in the 1-D branch: {ast.unparse(st)[:50]}')
+    if centre is None:
+        raise Untranslatable('no centre index in the 1-D branch')
+    # the step handed to the (first, shared) integration call
+    step = None
+    for st in fn.body:
+        if isinstance(st, ast.Assign) and len(st.targets) == 1 and isinstance(st.targets[0], ast.Name):
+            v = st.value
+            if isinstance(v, ast.Call) and ast.unparse(v.func) in ('abs', 'np.abs', 'np.fabs') and len(v.args) == 1 \
+                    and isinstance(v.args[0], ast.BinOp) and isinstance(v.args[0].op, ast.Sub) \
+                    and isinstance(v.args[0].left, ast.Name) and isinstance(v.args[0].right, ast.Name):
+                step = (st.targets[0].id, v.args[0].left.id, v.args[0].right.id)
+                break
+    if step is None:
+        raise Untranslatable('no step = abs(p - q) shared by both forms')
+    name, p_, q_ = step
+    used = False
+    for st in fn.body:
+        if isinstance(st, ast.If):
+            continue
+        for c in ast.walk(st):
+            if isinstance(c, ast.Call):
+                kws = {k.arg: k.value for k in c.keywords}
+                if 'dx' in kws and isinstance(kws['dx'], ast.Name) and kws['dx'].id == name:
+                    if not ('axis' in kws and isinstance(kws['axis'], ast.Constant) and kws['axis'].value in (0, -1)):
+                        raise Untranslatable('1-D integration is not along axis 0')
+                    used = True
+    if not used or p_ not in off or q_ not in off:
+        raise Untranslatable('the 1-D step is not handed to the integration')
+    d = off[p_] - off[q_]
+    if off[p_] != 0 and off[q_] != 0:
+        raise Untranslatable('neither point of the 1-D step is the centre sample')
+    lag = off[p_] if off[q_] == 0 else off[q_]
+    return centre, lag
+
+
 def _band_edges(fn, given):
     """symbolic execution of the argument handling of bandlimited_rms for the call pattern in which exactly the
     parameters in `given` (among wllow, wlhigh, flow, fhigh) are not None.  -> (flow_expr, fhigh_expr) ast nodes"""
@@ -294,7 +617,7 @@ def _band_edges(fn, given):
                     return True
                 continue
             if isinstance(st, ast.Raise):
-                raise Untranslatable('this call pattern raises')
+                raise _Raises(ast.unparse(st.exc)[:40] if st.exc is not None else 'raise')
             if isinstance(st, ast.Assign) and len(st.targets) == 1 and isinstance(st.targets[0], ast.Name):
                 nm = st.targets[0].id
                 if nm in ('flow', 'fhigh'):
@@ -319,83 +642,150 @@ def generate(repo):
     utl, _ = load(repo, 'prysm/util.py')
     crd, _ = load(repo, 'prysm/coordinates.py')
 
-    # ---- psd: rotations around fft2
+    ftm, _ = load(repo, 'prysm/fttools.py')
+    rdm, _ = load(repo, 'prysm/_richdata.py')
+
+    # ---- psd: what the function RETURNS, by last-definition dataflow (rebinding / reordering / renaming are followed)
     def psd_rots():
-        fn = get_def(ifm, 'psd')
-        fts = find_assigns(fn, 'ft')
-        if len(fts) != 1:
-            raise Untranslatable('the spectrum `ft` is not assigned exactly once')
-        ft = fts[0]
-        post, inner = _rot_call(ft)
-        if not (isinstance(inner, ast.Call) and ast.unparse(inner.func).split('.')[-1] == 'fft2' and len(inner.args) == 1
-                and not inner.keywords):
-            raise Untranslatable(f'spectrum is not rot(fft2(..)): {ast.unparse(ft)[:60]}')
-        pre, x = _rot_call(inner.args[0])
-        if ast.unparse(x).replace(' ', '') not in ('height*window', 'window*height'):
-            raise Untranslatable(f'transform input is {ast.unparse(x)[:40]}')
-        # the power must be |ft|^2 of that spectrum and the window must come from make_window
-        p = ast.unparse(find_assign(fn, 'psd')).replace(' ', '')
-        if p not in ('abs(ft)**2', 'np.abs(ft)**2', 'ft.real**2+ft.imag**2'):
-            raise Untranslatable(f'power is {p[:40]}')
+        a = _psd_analysis(get_def(ifm, 'psd'))
         lean = lambda k: ROTS[k] if k else f'{M}.Rot.none'   # noqa: E731
-        return (f'def psdPreRot : {M}.Rot := {lean(pre)}\n'
-                f'def psdPostRot : {M}.Rot := {lean(post)}')
+        return (f'def psdPreRot : {M}.Rot := {lean(a["pre"])}\n'
+                f'def psdPostRot : {M}.Rot := {lean(a["post"])}')
     g.item('psd.rotations', 'prysm/interferogram.py:psd', lambda: get_def(ifm, 'psd'), psd_rots,
            f'def psdPreRot : {M}.Rot := {M}.Rot.fftshift\ndef psdPostRot : {M}.Rot := {M}.Rot.fftshift')
 
-    # ---- psd: coefficient
-    def psd_coef():
-        fn = get_def(ifm, 'psd')
-        tr = Tr({'dx': 'dx', 'S2': 'S2'}, mode='num')
-        env = dict(tr.env)
-        fs = find_assigns(fn, 'fs')
-        if len(fs) == 1:
-            env['fs'] = Tr(env, 'num').expr(fs[0])
-        coef = find_assigns(fn, 'coef')
-        if len(coef) != 1:
-            raise Untranslatable('coef assigned more than once / never')
-        term = Tr(env, 'num').expr(coef[0])
-        # S2 must be the sum of the squared window and the power must be divided by coef
-        s2 = ast.unparse(find_assign(fn, 'S2')).replace(' ', '')
-        if s2 not in ('(window**2).sum()', 'np.sum(window**2)', '(window*window).sum()'):
-            raise Untranslatable(f'S2 is {s2[:40]}')
-        div = [st for st in _stmts(fn) if isinstance(st, ast.AugAssign) and ast.unparse(st.target) == 'psd']
-        if not (len(div) == 1 and isinstance(div[0].op, ast.Div) and ast.unparse(div[0].value) == 'coef'):
-            raise Untranslatable('power is not divided by coef exactly once')
-        (ret,) = find_returns(fn)
-        if ast.unparse(ret).replace(' ', '') != '(ux,uy,psd)':
-            raise Untranslatable(f'returns {ast.unparse(ret)[:40]}')
-        return f'def psdCoef {{K : Type}} [Num K] (S2 dx : K) : K := {term}'
-    g.item('psd.coef', 'prysm/interferogram.py:psd', lambda: get_def(ifm, 'psd'), psd_coef,
-           f'def psdCoef {{K : Type}} [Num K] (S2 dx : K) : K := {M}.psdCoef S2 dx')
+    # ---- psd: the returned power as a function of P = |spectrum|^2, S2 = sum(window^2) and dx
+    def psd_power():
+        a = _psd_analysis(get_def(ifm, 'psd'))
+        term = Tr({'P__': 'P', 'S2__': 'S2', 'dx': 'dx'}, mode='num').expr(a['power'])
+        return f'def psdPower {{K : Type}} [Num K] (P S2 dx : K) : K := {term}'
+    g.item('psd.power', 'prysm/interferogram.py:psd', lambda: get_def(ifm, 'psd'), psd_power,
+           f'def psdPower {{K : Type}} [Num K] (P S2 dx : K) : K := P / {M}.psdCoef S2 dx')
 
-    # ---- psd: which shape entry feeds which frequency axis
-    def psd_axes():
+    def psd_same_window():
+        a = _psd_analysis(get_def(ifm, 'psd'))
+        if a['Ws'] is None:
+            # no sum of squares in the normalisation: recognisably wrong if the window enters it some other way
+            # (e.g. `window.sum()`), unknown otherwise
+            return False if _norm(a['Wt']) in _norm(a['power']) else None
+        return _norm(a['Wt']) == _norm(a['Ws'])
+    g.fact('psdWindowSameInTransformAndS2', 'prysm/interferogram.py:psd', psd_same_window)
+
+    def psd_sq_modulus():
+        """the returned power is built on |spectrum|^2 (not |spectrum|, not the squared real part)"""
         fn = get_def(ifm, 'psd')
-        out = {}
-        for nm in ('ux', 'uy'):
-            call = find_assign(fn, nm, which=0)
-            if not (isinstance(call, ast.Call) and ast.unparse(call.func) == 'forward_ft_unit' and len(call.args) == 2
-                    and not call.keywords and ast.unparse(call.args[0]) == 'dx'):
-                raise Untranslatable(f'{nm} = {ast.unparse(call)[:50]}')
-            a = call.args[1]
-            if not (isinstance(a, ast.Subscript) and ast.unparse(a.value) == 'height.shape'
-                    and isinstance(a.slice, ast.Constant) and a.slice.value in (0, 1)):
-                raise Untranslatable(f'{nm} length is {ast.unparse(a)[:40]}')
-            out[nm] = a.slice.value
-        b = [st for st in _stmts(fn) if isinstance(st, ast.Assign) and ast.unparse(st.value).startswith('broadcast_1d_to_2d')]
-        if not (len(b) == 1 and ast.unparse(b[0]).replace(' ', '') == 'ux,uy=broadcast_1d_to_2d(ux,uy)'):
-            raise Untranslatable('axes are not broadcast as ux, uy = broadcast_1d_to_2d(ux, uy)')
-        return (f'def psdUxShapeAxis : Nat := {out["ux"]}\n'
-                f'def psdUyShapeAxis : Nat := {out["uy"]}')
+        try:
+            _psd_analysis(fn)
+            return True
+        except Untranslatable:
+            pass
+        ssa = _SSA()
+        ssa.run(fn.body)
+        if not (isinstance(ssa.ret, ast.Tuple) and len(ssa.ret.elts) == 3):
+            return None
+        pw = ssa.ret.elts[2]
+        hit = []
+
+        def has_ft(x):
+            return any(isinstance(n, ast.Call) and _callee(n) == 'fft2' for n in ast.walk(x))
+        for n in ast.walk(pw):
+            if isinstance(n, ast.Call) and _norm(n.func) == 'abs' and len(n.args) == 1 and has_ft(n.args[0]):
+                hit.append('abs')
+            if isinstance(n, ast.Attribute) and n.attr in ('real', 'imag') and has_ft(n.value):
+                hit.append(n.attr)
+        if hit and not any(_power_of(n) is not None for n in ast.walk(pw) if isinstance(n, ast.expr)):
+            return False          # the modulus / one component of the spectrum is there, but not as a squared modulus
+        return None
+    g.fact('psdPowerIsSquaredModulus', 'prysm/interferogram.py:psd', psd_sq_modulus)
+
+    def psd_window_source():
+        a = _psd_analysis(get_def(ifm, 'psd'))
+        W = a['Wt']
+        if not (isinstance(W, ast.Call) and _callee(W) == 'make_window'):
+            return None
+        b = _bind(W, _params(get_def(ifm, 'make_window')))
+        if 'signal' not in b or 'dx' not in b:
+            return None
+        # the window is made for THIS map and spacing, and the caller's `window` argument is what selects it
+        return _norm(b['signal']) == 'height' and _norm(b['dx']) == 'dx' and 'which' in b and _norm(b['which']) == 'window'
+    g.fact('psdWindowMadeForHeightFromWindowArgument', 'prysm/interferogram.py:psd', psd_window_source)
+
+    # ---- psd: which shape entry feeds which frequency axis, and which output of the broadcast is returned as which axis
+    def psd_axes():
+        a = _psd_analysis(get_def(ifm, 'psd'))
+
+        def proj(e):
+            if isinstance(e, ast.Subscript) and isinstance(e.slice, ast.Constant) and e.slice.value in (0, 1) \
+                    and isinstance(e.value, ast.Call) and _callee(e.value) in ('broadcast_1d_to_2d', 'meshgrid'):
+                return e.value, e.slice.value
+            raise Untranslatable(f'axis is {ast.unparse(e)[:60]}')
+        cu, ku = proj(a['ux'])
+        cv, kv = proj(a['uy'])
+        if _norm(cu) != _norm(cv) or len(cu.args) != 2 or cu.keywords:
+            raise Untranslatable('the two axes do not come from one broadcast of two 1-D axes')
+        ax = [_axis_call(cu.args[0]), _axis_call(cu.args[1])]
+        return (f'def psdUxShapeAxis : Nat := {ax[ku]}\n'
+                f'def psdUyShapeAxis : Nat := {ax[kv]}\n'
+                f'def psdUxBroadcastSlot : Nat := {ku}\n'
+                f'def psdUyBroadcastSlot : Nat := {kv}')
     g.item('psd.axes', 'prysm/interferogram.py:psd', lambda: get_def(ifm, 'psd'), psd_axes,
-           'def psdUxShapeAxis : Nat := 1\ndef psdUyShapeAxis : Nat := 0')
+           'def psdUxShapeAxis : Nat := 1\ndef psdUyShapeAxis : Nat := 0\n'
+           'def psdUxBroadcastSlot : Nat := 0\ndef psdUyBroadcastSlot : Nat := 1')
+
+    # ---- fttools.forward_ft_unit(dx, samples, shift=True): rotation applied to fftfreq(samples, dx)
+    def ft_unit():
+        fn = get_def(ftm, 'forward_ft_unit')
+        ps = _params(fn)
+        if ps[:2] != ['dx', 'samples'] or 'shift' not in ps:
+            raise Untranslatable(f'forward_ft_unit parameters {ps}')
+        dflt = fn.args.defaults[-1] if fn.args.defaults else None
+        if not (ps[-1] == 'shift' and isinstance(dflt, ast.Constant) and dflt.value is True):
+            raise Untranslatable('shift does not default to True')
+        ssa = _SSA(consts={'shift': True})
+        ssa.run(fn.body)
+        rot, inner = _rot_call(ssa.ret)
+        if not (isinstance(inner, ast.Call) and _callee(inner) == 'fftfreq'):
+            raise Untranslatable(f'forward_ft_unit returns {ast.unparse(ssa.ret)[:50]}')
+        b = _bind(inner, ['n', 'd'])
+        if 'n' not in b or 'd' not in b:
+            raise Untranslatable('fftfreq call')
+        order = (_norm(b['n']), _norm(b['d']))
+        if order == ('samples', 'dx'):
+            ok = 'true'
+        elif order == ('dx', 'samples'):
+            ok = 'false'
+        else:
+            raise Untranslatable(f'fftfreq({order[0]}, {order[1]})')
+        lean = ROTS[rot] if rot else f'{M}.Rot.none'
+        return (f'def axisRot : {M}.Rot := {lean}\n'
+                f'def axisFftfreqCountThenSpacing : Bool := {ok}')
+    g.item('forward_ft_unit', 'prysm/fttools.py:forward_ft_unit', lambda: get_def(ftm, 'forward_ft_unit'), ft_unit,
+           f'def axisRot : {M}.Rot := {M}.Rot.fftshift\ndef axisFftfreqCountThenSpacing : Bool := true')
 
     def b1d2d():
         fn = get_def(crd, 'broadcast_1d_to_2d')
-        src = [ast.unparse(s).replace(' ', '') for s in fn.body if not (isinstance(s, ast.Expr) and isinstance(s.value, ast.Constant))]
-        return src == ['shpx=(y.size,x.size)', 'shpy=(x.size,y.size)', 'xx=np.broadcast_to(x,shpx)',
-                       'yy=np.broadcast_to(y,shpy).T', 'return(xx,yy)']
+        if _params(fn) != ['x', 'y']:
+            return None
+        ssa = _SSA()
+        ssa.run(fn.body)
+        if not (isinstance(ssa.ret, ast.Tuple) and len(ssa.ret.elts) == 2):
+            return None
+        sz = lambda v: (f'{v}.size', f'len({v})', f'{v}.shape[0]')   # noqa: E731
+        rows_y = {f'({a},{b})' for a in sz('y') for b in sz('x')}       # shape (y.size, x.size)
+        rows_x = {f'({a},{b})' for a in sz('x') for b in sz('y')}       # shape (x.size, y.size)
+        bc = ('np.broadcast_to', 'numpy.broadcast_to')
+        XX = {f'{f}(x,{shp})' for f in bc for shp in rows_y} | {f'{f}(x[None,:],{shp})' for f in bc for shp in rows_y} \
+            | {f'{f}(x[np.newaxis,:],{shp})' for f in bc for shp in rows_y}
+        YY = {f'{f}(y,{shp}).T' for f in bc for shp in rows_x} | {f'{f}(y[:,None],{shp})' for f in bc for shp in rows_y} \
+            | {f'{f}(y[:,np.newaxis],{shp})' for f in bc for shp in rows_y}
+        # recognisably wrong: y not transposed (varies along columns), or the two results swapped
+        YY_bad = {f'{f}(y,{shp})' for f in bc for shp in rows_x | rows_y}
+        e0, e1 = (_norm(e) for e in ssa.ret.elts)
+        if e0 in XX and e1 in YY:
+            return True
+        if (e0 in YY and e1 in XX) or (e0 in XX and e1 in YY_bad):
+            return False
+        return None
     g.fact('broadcastXAlongRowsYAlongColumns', 'prysm/coordinates.py:broadcast_1d_to_2d', b1d2d)
 
     # ---- bandlimited_rms
@@ -413,9 +803,6 @@ def generate(repo):
             raise Untranslatable('integration results are not plain assignments')
         if calls[0]['arg'] != 'work' or any(calls[j]['arg'] != tgt[j - 1] for j in range(1, k)):
             raise Untranslatable('integration calls are not chained work -> reduced -> reduced')
-        (ret,) = find_returns(fn)
-        if ast.unparse(ret) not in (f'np.sqrt({tgt[-1]})',):
-            raise Untranslatable(f'returns {ast.unparse(ret)[:40]}')
 
         def table(key):
             arms = ''.join(f'  | {j} => {calls[j][key]}\n' for j in range(k))
@@ -431,6 +818,34 @@ def generate(repo):
            'def brmsIntAxis : Nat → Nat\n  | _ => 0\n'
            'def brmsStepAxis : Nat → Nat\n  | 0 => 0\n  | 1 => 1\n  | _ => 0\n'
            'def brmsStepLag : Nat → Int\n  | 0 => -1\n  | 1 => -1\n  | _ => 0\n')
+
+    def brms_returns_sqrt():
+        """bandlimited_rms returns the square ROOT of the (last) integral; and it integrates a COPY of the caller's PSD"""
+        fn = get_def(ifm, 'bandlimited_rms')
+        tgt = [ast.unparse(st.targets[0]) for st in _stmts(fn)
+               if isinstance(st, ast.Assign) and isinstance(st.value, ast.Call) and any(kw.arg == 'dx' for kw in st.value.keywords)]
+        rets = find_returns(fn)
+        if not tgt or len(rets) != 1:
+            return None
+        t = ast.unparse(rets[0]).replace(' ', '')
+        X = tgt[-1]
+        if t in (f'np.sqrt({X})', f'{X}**0.5', f'math.sqrt({X})', f'np.sqrt(abs({X}))', f'float(np.sqrt({X}))'):
+            ok = True
+        elif t in (X, f'float({X})', f'{X}**2', f'np.sqrt({X})**2'):
+            return False
+        else:
+            return None
+        w = find_assigns(fn, 'work')
+        if len(w) != 1:
+            return None
+        wt = ast.unparse(w[0]).replace(' ', '')
+        if wt in ('psd.copy()', 'np.copy(psd)', 'np.array(psd)', 'np.array(psd,copy=True)', 'psd*1', 'psd+0', 'psd.astype(float)'):
+            return ok
+        if wt == 'psd' and any(isinstance(st, ast.Assign) and isinstance(st.targets[0], ast.Subscript)
+                                and ast.unparse(st.targets[0].value) == 'work' for st in _stmts(fn)):
+            return False          # masked writes go into the caller's array
+        return None
+    g.fact('brmsReturnsSqrtOfIntegralOfACopy', 'prysm/interferogram.py:bandlimited_rms', brms_returns_sqrt)
 
     def brms_centre():
         fn = get_def(ifm, 'bandlimited_rms')
@@ -477,10 +892,14 @@ def generate(repo):
     def brms_band():
         fn = get_def(ifm, 'bandlimited_rms')
         pats = [('PeriodLow', ('wllow',)), ('PeriodHigh', ('wlhigh',)), ('PeriodBoth', ('wllow', 'wlhigh')),
-                ('FreqLow', ('flow',)), ('FreqHigh', ('fhigh',)), ('FreqBoth', ('flow', 'fhigh'))]
+                ('FreqLow', ('flow',)), ('FreqHigh', ('fhigh',)), ('FreqBoth', ('flow', 'fhigh')),
+                ('MixedPeriodUpFreqLow', ('wllow', 'flow')), ('MixedPeriodLowFreqUp', ('wlhigh', 'fhigh'))]
         txt = ''
         for name, given in pats:
-            lo, hi = _band_edges(fn, given)
+            try:
+                lo, hi = _band_edges(fn, given)
+            except _Raises as ex:
+                raise Untranslatable(f'call pattern {given} raises {ex}')
             env = {k: k for k in given}
             env.update({'default_max': 'dmax', 'r.max()': 'dmax'})
             tr = Tr(env, mode='rat')
@@ -494,50 +913,204 @@ def generate(repo):
            'def brmsBandPeriodBoth (wllow : Rat) (wlhigh : Rat) (dmax : Rat) : Rat × Rat := (1 / wlhigh, 1 / wllow)\n'
            'def brmsBandFreqLow (flow : Rat) (dmax : Rat) : Rat × Rat := (flow, dmax)\n'
            'def brmsBandFreqHigh (fhigh : Rat) (dmax : Rat) : Rat × Rat := (0, fhigh)\n'
-           'def brmsBandFreqBoth (flow : Rat) (fhigh : Rat) (dmax : Rat) : Rat × Rat := (flow, fhigh)\n')
+           'def brmsBandFreqBoth (flow : Rat) (fhigh : Rat) (dmax : Rat) : Rat × Rat := (flow, fhigh)\n'
+           'def brmsBandMixedPeriodUpFreqLow (wllow : Rat) (flow : Rat) (dmax : Rat) : Rat × Rat := (flow, 1 / wllow)\n'
+           'def brmsBandMixedPeriodLowFreqUp (wlhigh : Rat) (fhigh : Rat) (dmax : Rat) : Rat × Rat := (1 / wlhigh, fhigh)\n')
+
+    def brms_band_none():
+        """a call that names no band edge at all: the argument handling must reach a `raise ValueError`"""
+        fn = get_def(ifm, 'bandlimited_rms')
+        try:
+            _band_edges(fn, ())
+        except _Raises as ex:
+            return True if 'ValueError' in str(ex) else None
+        except Untranslatable as ex:
+            # `a band edge is still None when the mask is applied` = fell through without raising: recognised and wrong
+            return False if 'still None' in str(ex) else None
+        return False
+    g.fact('brmsNoBandGivenRaisesValueError', 'prysm/interferogram.py:bandlimited_rms', brms_band_none)
+
+    def brms_steps_1d():
+        fn = get_def(ifm, 'bandlimited_rms')
+        centre, lag = _brms_1d(fn)
+        env = {k: 's' for k in ('r.shape[0]', 'psd.shape[0]', 'work.shape[0]', 'len(r)', 'r.size', 'len(psd)', 'psd.size')}
+        return (f'def brmsCentre1D (s : Int) : Int := {Tr(env).expr(centre)}\n'
+                f'def brmsStepLag1D : Int := {lean_int(lag)}')
+    g.item('bandlimited_rms.steps1d', 'prysm/interferogram.py:bandlimited_rms', lambda: get_def(ifm, 'bandlimited_rms'),
+           brms_steps_1d, 'def brmsCentre1D (s : Int) : Int := s / 2\ndef brmsStepLag1D : Int := -1')
 
     # ---- render_synthetic_surface: the RMS rescale
     def synth():
         fn = get_def(ifm, 'render_synthetic_surface')
-        sf = find_assigns(fn, 'scale_factor')
-        if len(sf) != 1:
-            raise Untranslatable('scale_factor assigned more than once / never')
-        term = Tr({'rms': 'rho', 'z_rms': 'zrms'}, mode='num').expr(sf[0])
-        aug = [st for st in _stmts(fn) if isinstance(st, ast.AugAssign) and ast.unparse(st.target) == 'z']
+        st = _stmts(fn)
+        aug = [x for x in st if isinstance(x, ast.AugAssign) and ast.unparse(x.target) == 'z'] + \
+              [x for x in st if isinstance(x, ast.Assign) and ast.unparse(x.targets[0]) == 'z' and isinstance(x.value, ast.BinOp)
+               and 'z' in (ast.unparse(x.value.left), ast.unparse(x.value.right))]
         if len(aug) != 1:
-            raise Untranslatable('z is not rescaled by exactly one augmented assignment')
-        fake = ast.BinOp(left=ast.Name(id='z'), op=aug[0].op, right=aug[0].value)
-        term2 = Tr({'z': 'z', 'scale_factor': '(synthScale rho zrms)'}, mode='num').expr(fake)
-        return (f'def synthScale {{K : Type}} [Num K] (rho zrms : K) : K := {term}\n'
-                f'def synthRescale {{K : Type}} [Num K] (rho zrms z : K) : K := {term2}')
+            raise Untranslatable('z is not rescaled by exactly one statement')
+        if isinstance(aug[0], ast.AugAssign):
+            upd = ast.BinOp(left=ast.Name(id='z', ctx=ast.Load()), op=aug[0].op, right=aug[0].value)
+        else:
+            upd = aug[0].value
+        # substitute the (single-assignment) scale factor, whatever it is called
+        names = {n.id for n in ast.walk(upd) if isinstance(n, ast.Name)} - {'z', 'rms'}
+        env = {}
+        for nm in names:
+            vs = find_assigns(fn, nm)
+            if len(vs) == 1:
+                env[nm] = vs[0]
+        ssa = _SSA()
+        ssa.env = env
+        full = ssa.subst(upd)
+        # the measured rms: the one remaining name besides z and the requested rms
+        free = {n.id for n in ast.walk(full) if isinstance(n, ast.Name)} - {'z', 'rms'}
+        if len(free) != 1:
+            raise Untranslatable(f'rescale expression {ast.unparse(full)[:50]}')
+        (zr,) = free
+        term = Tr({'rms': 'rho', zr: 'zrms', 'z': 'z'}, mode='num').expr(full)
+        return f'def synthRescale {{K : Type}} [Num K] (rho zrms z : K) : K := {term}'
     g.item('render_synthetic_surface.rescale', 'prysm/interferogram.py:render_synthetic_surface',
            lambda: get_def(ifm, 'render_synthetic_surface'), synth,
-           f'def synthScale {{K : Type}} [Num K] (rho zrms : K) : K := rho / zrms\n'
            f'def synthRescale {{K : Type}} [Num K] (rho zrms z : K) : K := {M}.rescale rho zrms z')
 
+    def _rms_callee_ok(f):
+        """does the callee expression denote prysm.util.rms inside render_synthetic_surface (where the parameter `rms`
+        shadows the module-level name)?  True / False (recognisably something else) / None"""
+        t = ast.unparse(f).replace('"', "'").replace(' ', '')
+        if t == "globals()['rms']":
+            target = 'rms'
+        elif isinstance(f, ast.Name) and f.id != 'rms':
+            target = f.id
+        elif isinstance(f, ast.Name) and f.id == 'rms':
+            return False                      # the float parameter, not the function
+        else:
+            return None
+        # module level: `from .util import ... rms [as target] ...` and nothing else binding the name
+        bound = []
+        for n in ifm.body:
+            if isinstance(n, ast.ImportFrom):
+                for al in n.names:
+                    if (al.asname or al.name) == target:
+                        bound.append((n.module or '', al.name))
+            elif isinstance(n, (ast.FunctionDef, ast.ClassDef)) and n.name == target:
+                bound.append(('def', n.name))
+            elif isinstance(n, ast.Assign) and any(isinstance(t_, ast.Name) and t_.id == target for t_ in n.targets):
+                bound.append(('assign', ast.unparse(n.value)))
+        if len(bound) != 1:
+            return None
+        mod, name = bound[0]
+        if mod.split('.')[-1] == 'util' and name == 'rms':
+            return True
+        if mod in ('assign', 'def'):
+            return None
+        return False
+
     def synth_order():
+        """order of effects in render_synthetic_surface: the mask is written (z[mask == 0] = nan) BEFORE z_rms is taken,
+        z_rms is util.rms of the masked surface, and the surface is scaled after that"""
         fn = get_def(ifm, 'render_synthetic_surface')
         st = _stmts(fn)
-        mask = [s for s in st if isinstance(s, ast.Assign) and ast.unparse(s).replace(' ', '') == 'z[mask==0]=np.nan']
-        zr = [s for s in st if isinstance(s, ast.Assign) and ast.unparse(s.targets[0]) == 'z_rms']
-        aug = [s for s in st if isinstance(s, ast.AugAssign) and ast.unparse(s.target) == 'z']
-        return len(mask) == 1 and len(zr) == 1 and len(aug) == 1 \
-            and ast.unparse(zr[0].value) in ("globals()['rms'](z)",) \
-            and mask[0].lineno < zr[0].lineno < aug[0].lineno
+        mask_forms = ('z[mask==0]=np.nan', 'z[mask==0]=nan', 'z[mask==False]=np.nan', 'z[~mask.astype(bool)]=np.nan',
+                      'z[np.logical_not(mask)]=np.nan', 'z[mask==0]=float("nan")', "z[mask==0]=float('nan')")
+        mask = [s_ for s_ in st if isinstance(s_, ast.Assign) and ast.unparse(s_).replace(' ', '') in mask_forms]
+        if any(isinstance(s_, ast.Assign) and ast.unparse(s_).replace(' ', '') in
+               ('z[mask!=0]=np.nan', 'z[mask==1]=np.nan', 'z[mask]=np.nan', 'z[mask==True]=np.nan', 'z[mask>0]=np.nan') for s_ in st):
+            return False          # the samples INSIDE the mask are invalidated
+        aug = [s_ for s_ in st if isinstance(s_, ast.AugAssign) and ast.unparse(s_.target) == 'z'] + \
+              [s_ for s_ in st if isinstance(s_, ast.Assign) and ast.unparse(s_.targets[0]) == 'z'
+               and isinstance(s_.value, ast.BinOp) and isinstance(s_.value.op, (ast.Mult, ast.Div)) and 'z' in (ast.unparse(s_.value.left), ast.unparse(s_.value.right))]
+        sf = find_assigns(fn, 'scale_factor')
+        if len(mask) != 1 or len(aug) != 1:
+            return None
+        # the name in the denominator of the scale is the measured rms
+        den = None
+        for e in sf + [aug[0].value]:
+            if isinstance(e, ast.BinOp) and isinstance(e.op, ast.Div) and isinstance(e.right, ast.Name):
+                den = e.right.id
+        if den is None:
+            return None
+        zr = [s_ for s_ in st if isinstance(s_, ast.Assign) and ast.unparse(s_.targets[0]) == den]
+        if len(zr) != 1:
+            return None
+        v = zr[0].value
+        if not (isinstance(v, ast.Call) and len(v.args) == 1 and not v.keywords and ast.unparse(v.args[0]) == 'z'):
+            # recognisably not "util.rms of z": e.g. np.sqrt((z * z).mean()) ignores which samples are valid
+            return False if isinstance(v, ast.Call) and _callee(v) in ('sqrt', 'std', 'mean', 'nanstd') else None
+        ok = _rms_callee_ok(v.func)
+        if ok is not True:
+            return ok
+        return mask[0].lineno < zr[0].lineno < aug[0].lineno
     g.fact('synthRmsOfMaskedSurfaceThenScale', 'prysm/interferogram.py:render_synthetic_surface', synth_order)
 
     def util_rms():
+        """prysm.util.rms(array) = sqrt(mean(array[finite]**2)), recognised after substituting locals"""
         fn = get_def(utl, 'rms')
-        src = [ast.unparse(s).replace(' ', '') for s in fn.body if not (isinstance(s, ast.Expr) and isinstance(s.value, ast.Constant))]
-        return src == ['non_nan=np.isfinite(array)', 'returnnp.sqrt((array[non_nan]**2).mean())']
+        ps = _params(fn)
+        if len(ps) != 1:
+            return None
+        ssa = _SSA()
+        ssa.run(fn.body)
+        A = ps[0]
+        t = _norm(ssa.ret).replace('numpy.', 'np.')
+        fin = (f'np.isfinite({A})', f'~np.isnan({A})', f'np.logical_not(np.isnan({A}))')
+        sq = lambda x: (f'{x}**2', f'{x}*{x}', f'np.square({x})')      # noqa: E731
+        good, nosqrt, nofilter = set(), set(), set()
+        for f_ in fin:
+            for q in sq(f'{A}[{f_}]'):
+                good |= {f'np.sqrt(({q}).mean())', f'np.sqrt(np.mean({q}))', f'np.sqrt({q}.mean())', f'({q}).mean()**0.5',
+                         f'math.sqrt(({q}).mean())', f'np.sqrt(np.nanmean({q}))'}
+                nosqrt |= {f'({q}).mean()', f'np.mean({q})'}
+        for q in sq(A):
+            good |= {f'np.sqrt(np.nanmean({q}))'}
+            nofilter |= {f'np.sqrt(({q}).mean())', f'np.sqrt(np.mean({q}))'}
+        if t in good:
+            return True
+        if t in nosqrt or t in nofilter:
+            return False
+        return None
     g.fact('rmsIsSqrtMeanSquareOfFiniteSamples', 'prysm/util.py:rms', util_rms)
 
     # ---- Interferogram methods delegate to the free functions with matching arguments
     def ifg_psd():
+        """Interferogram.psd: (a, b, c) = psd(self.data, self.dx); the returned object carries c as data, a as .x, b as .y"""
         fn = get_def(ifm, 'Interferogram.psd')
-        src = [ast.unparse(s).replace(' ', '') for s in fn.body if not (isinstance(s, ast.Expr) and isinstance(s.value, ast.Constant))]
-        need = ['ux,uy,psd_=psd(self.data,self.dx)', 'p=RichData(psd_,0,self.wavelength)', 'p.x=ux', 'p.y=uy', 'returnp']
-        return all(x in src for x in need) and src.index('p.x=ux') > src.index(need[1])
+        calls = find_calls(fn, 'psd')
+        if len(calls) != 1:
+            return None
+        bnd = _bind(calls[0], _params(get_def(ifm, 'psd')))
+        if 'height' not in bnd or 'dx' not in bnd:
+            return None
+        if 'window' in bnd:
+            return None
+        tup = [s_ for s_ in _stmts(fn) if isinstance(s_, ast.Assign) and s_.value is calls[0]]
+        if not (len(tup) == 1 and isinstance(tup[0].targets[0], ast.Tuple) and len(tup[0].targets[0].elts) == 3
+                and all(isinstance(e, ast.Name) for e in tup[0].targets[0].elts)):
+            return None
+        na, nb, nc = (e.id for e in tup[0].targets[0].elts)
+        rets = find_returns(fn)
+        if not (len(rets) == 1 and isinstance(rets[0], ast.Name)):
+            return None
+        obj = rets[0].id
+        ctor = [v for v in find_assigns(fn, obj)]
+        if not (len(ctor) == 1 and isinstance(ctor[0], ast.Call) and _callee(ctor[0]) == 'RichData'):
+            return None
+        cb = _bind(ctor[0], ['data', 'dx', 'wavelength'])
+        stores = {}
+        for s_ in _stmts(fn):
+            if isinstance(s_, ast.Assign) and len(s_.targets) == 1 and isinstance(s_.targets[0], ast.Attribute) \
+                    and isinstance(s_.targets[0].value, ast.Name) and s_.targets[0].value.id == obj:
+                if s_.lineno < tup[0].lineno:
+                    return None
+                stores.setdefault(s_.targets[0].attr, []).append(ast.unparse(s_.value))
+        if 'data' not in cb or any(len(v) != 1 for v in stores.values()) or 'x' not in stores or 'y' not in stores:
+            return None
+        got = (_norm(bnd['height']), _norm(bnd['dx']), _norm(cb['data']), stores['x'][0], stores['y'][0])
+        if got == ('self.data', 'self.dx', nc, na, nb):
+            return True
+        names = {na, nb, nc, 'self.data', 'self.dx'}
+        if all(x in names for x in got):
+            return False          # the same ingredients wired differently (x/y swapped, dx for data, ...)
+        return None
     g.fact('interferogramPsdDelegates', 'prysm/interferogram.py:Interferogram.psd', ifg_psd)
 
     def ifg_psd_dx():
@@ -552,18 +1125,98 @@ def generate(repo):
            ifg_psd_dx, 'def ifgPsdDx (dx m n : Rat) : Rat := 1 / (n * dx)')
 
     def ifg_brms():
+        """Interferogram.bandlimited_rms: P = self.psd(); bandlimited_rms(r=P.r, psd=P.data, and each band edge under its own name)"""
         fn = get_def(ifm, 'Interferogram.bandlimited_rms')
-        (c,) = find_calls(fn, 'bandlimited_rms')
-        return ast.unparse(find_assign(fn, 'psd')) == 'self.psd()' and ast.unparse(c).replace(' ', '') == \
-            'bandlimited_rms(r=psd.r,psd=psd.data,wllow=wllow,wlhigh=wlhigh,flow=flow,fhigh=fhigh)'
+        calls = find_calls(fn, 'bandlimited_rms')
+        if len(calls) != 1:
+            return None
+        free = _params(get_def(ifm, 'bandlimited_rms'))
+        bnd = _bind(calls[0], free)
+        src = [nm for nm in {n.id for n in ast.walk(fn) if isinstance(n, ast.Name)}
+               if any(ast.unparse(v) == 'self.psd()' for v in find_assigns(fn, nm))]
+        if len(src) != 1:
+            return None
+        P = src[0]
+        want = {'r': f'{P}.r', 'psd': f'{P}.data', 'wllow': 'wllow', 'wlhigh': 'wlhigh', 'flow': 'flow', 'fhigh': 'fhigh'}
+        if set(bnd) != set(want):
+            return False if set(bnd) < set(want) else None          # an edge is not passed on at all
+        got = {k: _norm(v) for k, v in bnd.items()}
+        if got == want:
+            return True
+        if all(v in set(want.values()) | {f'{P}.x', f'{P}.y', f'{P}.t'} or isinstance(bnd[k], ast.Constant) for k, v in got.items()):
+            return False          # same ingredients wired differently, or an edge replaced by a constant
+        return None
     g.fact('interferogramBrmsPassesPsdRAndData', 'prysm/interferogram.py:Interferogram.bandlimited_rms', ifg_brms)
 
     def ifg_render():
+        """Interferogram.render_from_psd hands size, samples, rms, mask, psd_fcn and the model's keyword arguments on, each under
+        its own name"""
         fn = get_def(ifm, 'Interferogram.render_from_psd')
-        (c,) = find_calls(fn, 'render_synthetic_surface')
-        return ast.unparse(c).replace(' ', '') == \
-            'render_synthetic_surface(size=size,samples=samples,rms=rms,mask=mask,psd_fcn=psd_fcn,**psd_fcn_kwargs)'
+        calls = find_calls(fn, 'render_synthetic_surface')
+        if len(calls) != 1:
+            return None
+        c = calls[0]
+        bnd = _bind(c, _params(get_def(ifm, 'render_synthetic_surface')))
+        star = [ast.unparse(k.value) for k in c.keywords if k.arg is None]
+        want = {k: k for k in ('size', 'samples', 'rms', 'mask', 'psd_fcn')}
+        got = {k: _norm(v) for k, v in bnd.items()}
+        if any(x != 'psd_fcn_kwargs' for x in star):
+            return None                                                    # arguments travel in a dict we do not follow
+        if any(k in want and (v in want or isinstance(bnd[k], ast.Constant)) and v != k for k, v in got.items()):
+            return False                                                   # two arguments crossed / replaced by a constant
+        if set(want) - set(got) or not star:
+            return False                                                   # an argument / the model's kwargs not passed on
+        if all(got[k] == k for k in want):
+            return True
+        return None
     g.fact('interferogramRenderDelegates', 'prysm/interferogram.py:Interferogram.render_from_psd', ifg_render)
+
+    def tis_elementwise():
+        """total_integrated_scatter documents `incident_angle : float or ndarray`: the angle must go through array functions
+        (np.cos(np.radians(.)) / np.deg2rad), not through the scalar-only `math` module"""
+        fn = get_def(ifm, 'Interferogram.total_integrated_scatter')
+        seen = None
+        for n in ast.walk(fn):
+            if isinstance(n, ast.Call) and any(isinstance(x, ast.Name) and x.id == 'incident_angle' for x in ast.walk(n)):
+                mod = ast.unparse(n.func).split('.')[0]
+                if mod == 'math':
+                    return False
+                if mod in ('np', 'numpy'):
+                    seen = True
+        return seen
+    g.fact('tisAngleThroughArrayFunctions', 'prysm/interferogram.py:Interferogram.total_integrated_scatter', tis_elementwise)
+
+    def richdata_r():
+        """RichData.r (what Interferogram.bandlimited_rms hands over as `r`) is the rho of cart_to_polar(self.x, self.y), and rho is
+        hypot(x, y)"""
+        cls = [n for n in rdm.body if isinstance(n, ast.ClassDef) and n.name == 'RichData']
+        if len(cls) != 1:
+            return None
+        getter = [n for n in cls[0].body if isinstance(n, ast.FunctionDef) and n.name == 'r'
+                  and any(ast.unparse(d) == 'property' for d in n.decorator_list)]
+        if len(getter) != 1:
+            return None
+        calls = find_calls(getter[0], 'cart_to_polar')
+        if len(calls) != 1:
+            return None
+        b_ = _bind(calls[0], ['x', 'y', 'vec_to_grid'])
+        if 'vec_to_grid' in b_ or 'x' not in b_ or 'y' not in b_:
+            return None
+        xy = (_norm(b_['x']), _norm(b_['y']))
+        if xy not in (('self.x', 'self.y'), ('self.y', 'self.x')):     # hypot is symmetric
+            return None
+        st = [s_ for s_ in _stmts(getter[0]) if isinstance(s_, ast.Assign) and s_.value is calls[0]]
+        if not (len(st) == 1 and _norm(st[0].targets[0]) in ('(self._r,self._t)', 'self._r,self._t')):
+            return False if len(st) == 1 and _norm(st[0].targets[0]) in ('(self._t,self._r)', 'self._t,self._r') else None
+        c2p = get_def(crd, 'cart_to_polar')
+        rho = [ast.unparse(v).replace(' ', '') for v in find_assigns(c2p, 'rho')]
+        rets = find_returns(c2p)
+        if len(rho) != 1 or len(rets) != 1 or not (isinstance(rets[0], ast.Tuple) and _norm(rets[0].elts[0]) == 'rho'):
+            return None
+        if rho[0] in ('np.hypot(x,y)', 'np.hypot(y,x)', 'np.sqrt(x**2+y**2)', 'np.sqrt(x*x+y*y)', 'np.sqrt(y**2+x**2)'):
+            return True
+        return None
+    g.fact('richDataRIsHypotOfXY', 'prysm/_richdata.py:RichData.r + prysm/coordinates.py:cart_to_polar', richdata_r)
 
     def spectral_stateless():
         """psd / bandlimited_rms / total_integrated_scatter read only (data, dx, wavelength) of the current state (and call
